@@ -136,6 +136,11 @@ Definition exact (c : option pcert) : bool := match c with Some (_, Some _) => t
 Definition same_val (C : certs) (a b : operand) : bool :=
   operand_eqb a b || (exact (cert_op C a) && opcert_eqb (cert_op C a) (cert_op C b)).
 
+(* the same, for an operand a that the pass INTRODUCED: it must be one that certainly has a value (the fact's own operand,
+   or a literal) *)
+Definition is_lit (o : operand) : bool := match o with OLit _ => true | _ => false end.
+Definition same_new (C : certs) (a b : operand) : bool := operand_eqb a b || (is_lit a && same_val C a b).
+
 Definition mentions (x : N) (o : operand) : bool := match o with OVar y => N.eqb x y | _ => false end.
 Definition fact_mentions (fc : fact) (x : N) : bool :=
   match fc with FCopy _ d s _ => mentions x d || mentions x s end.
@@ -237,7 +242,7 @@ Definition justified (C : certs) (F : list fact) (i i' : inst) : bool :=
             | [n'; s2; d'], [] =>
                 operand_eqb n n' && operand_eqb d d' &&
                 existsb (fun fc => match fc with FCopy op dF sF nF =>
-                           String.eqb op (i_op i') && (nF =? nz) && same_val C s dF && same_val C s2 sF end) F
+                           String.eqb op (i_op i') && (nF =? nz) && same_val C s dF && same_new C s2 sF end) F
             | _, _ => false
             end
           else false
